@@ -1799,6 +1799,24 @@ impl Actor {
             ));
         }
 
+        // Sectors must have the same Window PoSt proof type (i.e. sector size) as the miner.
+        let sector_wpost_proof =
+            params.seal_proof_type.registered_window_post_proof().map_err(|_e| {
+                actor_error!(
+                    illegal_argument,
+                    "failed to lookup Window PoSt proof type for sector seal proof {}",
+                    i64::from(params.seal_proof_type)
+                )
+            })?;
+        if sector_wpost_proof != info.window_post_proof_type {
+            return Err(actor_error!(
+                illegal_argument,
+                "sector Window PoSt proof type {} must match miner Window PoSt proof type {}",
+                i64::from(sector_wpost_proof),
+                i64::from(info.window_post_proof_type)
+            ));
+        }
+
         if params.aggregate_proof_type != RegisteredAggregateProof::SnarkPackV2 {
             return Err(actor_error!(illegal_argument, "aggregate proof type must be SnarkPackV2"));
         }
